@@ -302,6 +302,7 @@ type docGen struct {
 	mShape    string   // type string the special alias "m" stands for
 	root      bool
 	hostile   bool
+	constOnly bool                   // generating a default value: no variables inside
 	argTexts  map[string]string      // response key / field name -> argument list
 	typed     []string               // declarations of the typed variables used as arguments
 	typedVals map[string]interface{} // their raw values (absent: no value)
@@ -386,6 +387,35 @@ func (g *docGen) selSet(scope string, depth int, fragDepth int) string {
 			}
 			// one response key, one argument list (fields under one key must have identical arguments)
 			rkey := strings.TrimSuffix(strings.TrimSpace(alias), ":") + "/" + f.name
+			// twin sites: ONE field node (inside a new named fragment) merges with different sibling
+			// nodes at two spread sites of the same type; the two merged sub-selection lists have
+			// the same first node and the same length (what a too coarse memo key of collectFields
+			// cannot tell apart)
+			if bt.composite() && bt.kind != "union" && len(g.s.possible(bt.name)) > 0 && depth >= 2 && fragDepth > 0 && g.nfrag < 5 && g.budget > 6 && g.r.Chance(1, 5) {
+				var inner []fieldDef
+				for _, f2 := range bt.fields {
+					if b2 := g.s.byName[f2.ty.base()]; b2.composite() && len(g.s.poolArgs[f2.name]) == 0 {
+						inner = append(inner, f2)
+					}
+				}
+				if len(inner) > 0 && len(g.s.poolArgs[f.name]) == 0 {
+					f2 := rng.Pick(g.r, inner)
+					b2 := g.s.byName[f2.ty.base()].name
+					g.nfrag++
+					name := fmt.Sprintf("F%d", g.nfrag)
+					g.frags = append(g.frags, fragment{name, bt.name, f2.name + " {" + g.selSet(b2, 0, 0) + "}"})
+					g.budget -= 4
+					for _, al := range []string{"ta", "tb", "tc"}[:2+g.r.Intn(2)] {
+						sub := f2.name + " {" + g.selSet(b2, 0, 0) + "}"
+						site := "..." + name + " " + sub
+						if g.r.Bool() {
+							site = sub + " ..." + name
+						}
+						items = append(items, al+"_"+f.name+": "+f.name+" {"+site+"}")
+					}
+					continue
+				}
+			}
 			argText, ok := g.argTexts[rkey]
 			if !ok || (g.hostile && g.r.Chance(1, 6)) { // hostile: differing arguments under one response key
 				argText = g.argsText(f.name)
